@@ -2,8 +2,10 @@ import PartituraModel.Wire
 import PartituraModel.Model.ScoreMidi
 import PartituraModel.Model.ScoreMidiSpec
 import PartituraModel.Model.MidiObject
+import PartituraModel.Model.ScoreEdit
+import PartituraModel.Model.ScoreMidiDefaults
 
-open Wire Model Model.Ticks Model.MidiPair Model.MidiModes Model.ScoreMidi Model.MidiObject
+open Wire Model Model.Ticks Model.MidiPair Model.MidiModes Model.ScoreMidi Model.MidiObject Model.ScoreEdit
 
 def orErr (o : Option String) : String := o.getD "err"
 
@@ -191,8 +193,25 @@ def outText : ReadOut → String
   | .saved f => objText f
   | .messages abs => fmtTracks abs
 
+def pEdit : P Edit := do
+  let t ← tok
+  match t with
+  | "Q" => do let i ← nat; let t ← nat; let q ← nat; pure (.setQd i t q)
+  | "A" => do let i ← nat; let s ← nat; let d ← nat; let p ← nat; let v ← opt int; pure (.addNote i (s, d, p, v))
+  | "R" => do let i ← nat; let k ← nat; pure (.removeNote i k)
+  | "T" => do let i ← nat; let t ← nat; let b ← nat; let bt ← nat; pure (.setTS i t b bt)
+  | _ => P.fail
+
 def handle (ts : List String) : String :=
   match ts with
+  | "edit" :: rest =>
+    -- a score object that was edited after it had been read: the parts as they were BEFORE the edits, the edits;
+    -- answers the export of the edited score and the theorems' vocabulary for it (as `expspec 0`)
+    orErr <| (run (do let mode ← nat; let a ← pAnac; let mn ← nat; let vel ← nat; let ps ← list pPart; let es ← list pEdit
+                      pure (mode, a, mn, vel, ps, es)) rest).bind fun (mode, a, mn, vel, ps, es) =>
+      let ps' := es.foldl applyEdit ps
+      (saveScoreMidi mode a mn vel ps').map fun e =>
+        s!"{e.ppq}|{fmtTracks e.tracks}|{fmtTracks (e.tracks.map (deltasFrom 0))}#{orErr (specText false mode a mn vel ps')}"
   | "hist" :: rest =>
     -- a history of uses of one MidiFile object: ticks per quarter, delta-time tracks, the uses; answers the result
     -- of every use in order, then the object as it is at the end
@@ -200,6 +219,19 @@ def handle (ts : List String) : String :=
       fun (ticks, trs, ops) =>
         let r := runHistory ⟨ticks, trs⟩ ops
         "#".intercalate (r.2.map outText ++ [objText r.1])
+  | "dom" :: rest =>
+    -- the property's domain on the score (`ScoreNoOverlap`, hypothesis of property_C04), decided for one mode
+    orErr <| (run (do let mode ← nat; let ps ← list pPart; pure (mode, ps)) rest).map fun (mode, ps) =>
+      if scoreNoOverlapB mode ps then "1" else "0"
+  | "expdef" :: rest =>
+    -- `save_score_midi(parts, out)`: every optional argument omitted (defaults regenerated from the signature)
+    orErr <| (run (list pPart) rest).bind fun ps =>
+      (saveScoreMidiDefault ps).map fun e =>
+        s!"{e.ppq}|{fmtTracks e.tracks}|{fmtTracks (e.tracks.map (deltasFrom 0))}"
+  | "impdef" :: rest =>
+    -- `load_score_midi(file)`: the mode omitted
+    orErr <| (run (do let ticks ← nat; let trs ← list pTrack; pure (ticks, trs)) rest).bind fun (ticks, trs) =>
+      (loadScoreMidiDefault ticks trs).map impText
   | "exp" :: rest =>
     orErr <| (run (do let mode ← nat; let a ← pAnac; let mn ← nat; let vel ← nat; let ps ← list pPart
                       pure (mode, a, mn, vel, ps)) rest).bind fun (mode, a, mn, vel, ps) =>
